@@ -172,7 +172,7 @@ Proof.
       apply mbind_ok in Hd as (u3 & t3 & _ & Hd). apply mbind_ok in Hd as (vs & t4 & _ & Hd).
       apply mbind_ok in Hd as (u4 & t5 & _ & Hd). unfold ret in Hd. injection Hd as <- _.
       unfold py_decl_kw. cbn. reflexivity.
-  - apply mbind_ok in H as (ty & s1 & _ & H). unfold ret in H. injection H as <- _.
+  - apply mbind_ok in H as (ty & s1 & _ & H). apply mbind_ok in H as (utv & stv & _ & H). unfold ret in H. injection H as <- _.
     constructor; [|constructor]. unfold py_decl_kw. cbn. reflexivity.
   - apply mbind_ok in H as (ty & s1 & _ & H). unfold ret in H. injection H as <- _.
     constructor; [|constructor]. unfold py_decl_kw. cbn. reflexivity.
